@@ -169,3 +169,14 @@ Example ex_guards : fst (step has_mono (monos_g true) gsA [eFull] (QObj false 0 
                     fst (step has_mono (monos_g true) gsA [eFull] (QFgiT 0 1 0 1 true true 9 3 5) []) = tbool false /\
                     fst (step has_mono (monos_g true) gsA [eFull] (QFgiT 0 0 0 1 true true 9 3 5) []) = tbool true.
 Proof. repeat split; vm_compute; reflexivity. Qed.
+
+(** when the cache is written: the filtering engine comparing C-O with O-C (equal orders) leaves both entries; comparing C-O-C with
+    C-O (different orders) leaves the cache alone *)
+Example ex_pre_check_writes :
+  In (0%nat, [1; 2]%N) (keys (snd (pre_check eFull 0 (gnth gsA 0) 1 (gnth gsA 1) []))) /\
+  snd (pre_check eFull 3 (gnth gsA 3) 0 (gnth gsA 0) []) = [].
+Proof.
+  split.
+  - apply (pre_check_writes eFull 0 (gnth gsA 0) 1 (gnth gsA 1) []). vm_compute. repeat split; lia.
+  - apply (pre_check_writes eFull 3 (gnth gsA 3) 0 (gnth gsA 0) []). vm_compute. intros (_ & E & _). discriminate.
+Qed.
